@@ -1,6 +1,7 @@
 import RosuModel.Lemmas.GradualOsu
 import RosuModel.Lemmas.GradualCatch
 import RosuModel.Lemmas.GradualMania
+import RosuModel.Lemmas.GradualTaiko
 
 /-!
 # C14 — reported object counts and max combo account for exactly the objects of the map
@@ -77,26 +78,6 @@ theorem osu_counts_cap (objs : List OsuObj) (a b : Nat) (ha : objs.length ≤ a)
   rw [osu_counts_eq_prefix, osu_counts_eq_prefix, List.take_of_length_le ha, List.take_of_length_le hb]
 
 /-! ## osu!taiko -/
-
-def hitsIn (l : List Bool) : Nat := (l.filter id).length
-
-theorem taiko_inspect_fold (take : Nat) (l : List Bool) (mc nd : Nat) (h : mc ≤ take) :
-    (l.foldl (taikoInspectStep take) (mc, nd)).1 = min take (mc + hitsIn l) := by
-  induction l generalizing mc nd with
-  | nil => simp [hitsIn]; omega
-  | cons b t ih =>
-    simp only [List.foldl_cons]
-    have hstep : taikoInspectStep take (mc, nd) b =
-        if mc < take then (mc + (if b then 1 else 0), nd + 1) else (mc, nd) := rfl
-    rw [hstep]
-    by_cases hlt : mc < take
-    · rw [if_pos hlt]
-      cases b
-      · rw [ih _ _ (by simp; omega)]; simp [hitsIn]
-      · rw [ih _ _ (by simp; omega)]; simp [hitsIn]; omega
-    · rw [if_neg hlt, ih _ _ h]
-      have : mc = take := by omega
-      omega
 
 /-- Max combo equals the number of hits, limited by `n`. -/
 theorem taiko_combo_eq_hits (objs : List Bool) (take : Nat) :
